@@ -617,6 +617,24 @@ def run(ctx):
             ctx.unread("K3.membership-fn", "array membership uses a dedicated equality of the crate (%s)" % cfg, "the Array case of `in` is not read", where=ib.where(), fn=ib.key)
         else:
             ctx.check(membership is not None, "K3.membership-fn", "array membership uses a dedicated equality of the crate (%s)" % cfg, "no membership equality function identified", where=ib.where(), fn=ib.key, nontrivial=True)
+        # whatever function decides membership: in the reach of `in` numbers are never pushed through an int↔float cast
+        # (`*int as f64 == n.as_f64()` makes 2^63 and 2^63+1 the same element), and integers are read in both 64-bit
+        # forms (an equality that reads as_i64 but never as_u64 compares every integer beyond i64::MAX as a double)
+        iu = Unit(roles, ib.key, extended=True)
+        n_cast, acc_ = 0, set()
+        for bb_ in iu.bodies:
+            for bi_, si_, st_ in bb_.stmts():
+                if st_["k"] == "Assign" and st_["rv"]["k"] == "Cast" and re.search(r"IntToFloat|FloatToInt", str(st_["rv"].get("kind") or st_["rv"].get("cast") or "")) and re.search(r"64|128|size", str(st_["rv"].get("from")) + str(st_["rv"].get("to"))):
+                    n_cast += 1
+                    ctx.fail("K3.exact-numbers", "in|%s|%s→%s" % (bb_.key.split("::", 1)[1], st_["rv"].get("from"), st_["rv"].get("to")), "`in` converts between integers and doubles (%s → %s in %s): integers beyond 2^53 that differ become the same element" % (st_["rv"].get("from"), st_["rv"].get("to"), bb_.key.split("::", 1)[1]), where=bb_.where(bi_, si_), fn=bb_.key)
+            for bi_, t_ in bb_.calls():
+                m_ = re.search(r"^serde_json::Number::(as_i64|as_u64)$", callee_path(t_) or "")
+                if m_:
+                    acc_.add(m_.group(1))
+        if "as_i64" in acc_ and "as_u64" not in acc_:
+            ctx.fail("K3.exact-numbers", "in|as_i64 without as_u64", "`in` reads integers with as_i64 but never with as_u64: two different integers beyond i64::MAX are compared as doubles and are the same element", where=ib.where(), fn=ib.key)
+        elif not n_cast:
+            ctx.ok("K3.exact-numbers", "no int↔float cast in the reach of `in`; integer reads %s (%s)" % (sorted(acc_), cfg), nontrivial=True)
         if membership is not None:
             mf = facts.body(membership)
             s2n = strnum.find_str_to_number(facts)
